@@ -7,7 +7,7 @@ func init() {
 }
 
 // shapes without function-less frames (entry identity = function name)
-var vC04Shapes = []int{6, 1, 5, 0, 2, 3, 7} // (shapes 8, 9 - line-less locations - are for C17: a graph treats them like shape 4's function-less frame)
+var vC04Shapes = []int{0, 1, 5, 6, 2, 3, 7} // (shapes 8, 9 - line-less locations - are for C17: a graph treats them like shape 4's function-less frame)
 
 // order used by the trimming check (C05)
 var vC05Shapes = []int{6, 1, 5, 0, 2, 3, 7}
@@ -119,6 +119,12 @@ func VerifC04TextItems() {
 			vAssert(vAnd(r.flat == 0, r.cum == 0), "C04.node.missing: an entry with non-zero flat or cum is missing from the graph")
 		}
 	}
+	// the header's "accounting for" figure is the sum of the flat values shown (also with mean)
+	var shownFlat int64
+	for _, n := range g.Nodes {
+		shownFlat += n.FlatValue()
+	}
+	vAssert(graphTotal(g) == shownFlat, "C05.header.mean: the 'accounting for' figure is not the sum of the flat values shown")
 	// every caller/callee adjacency of a sample is an edge of the graph
 	for ab := range edge {
 		if !found[ab[0]] || !found[ab[1]] {
